@@ -3,7 +3,8 @@
 PY = {"i1": "1", "i2": "2", "i0": "0", "bT": "True", "bF": "False", "f1": "1.0", "f1c": "1.0005", "f1f": "1.002",
       "f2": "2.0", "abc": "'abc'", "ABC": "'ABC'", "abc!": "'abc!'", "abd": "'abd'", "empty": "''", "none": "None",
       "L12": "[1, 2]", "L12c": "[1, 2.0005]", "L1f2": "[1.0, 2]", "L0": "[]", "T12": "(1, 2)",
-      "Labc": "['abc', 'abd']", "LABC": "['ABC', 'abd']"}
+      "Labc": "['abc', 'abd']", "LABC": "['ABC', 'abd']", "D_A1": "{'ABC': 1}", "D_a2": "{'abc': 2}", "D_a1": "{'abc': 1}",
+      "huge": "10**400", "T1a": "(1, 'abc')"}
 FN = {"equal": "assert_equal", "not_equal": "assert_not_equal", "less": "assert_less", "less_equal": "assert_less_equal",
       "greater": "assert_greater", "greater_equal": "assert_greater_equal", "in": "assert_in", "not_in": "assert_not_in",
       "is_none": "assert_is_none", "is_not_none": "assert_is_not_none", "true": "assert_true", "false": "assert_false",
@@ -11,12 +12,17 @@ FN = {"equal": "assert_equal", "not_equal": "assert_not_equal", "less": "assert_
       "length_less": "assert_length_less", "length_greater_equal": "assert_length_greater_equal", "is": "assert_is",
       "is_not": "assert_is_not", "is_instance": "assert_is_instance", "not_is_instance": "assert_not_is_instance",
       "regex": "assert_regex", "not_regex": "assert_not_regex", "output": "assert_output", "not_output": "assert_not_output",
-      "output_contains": "assert_output_contains", "not_output_contains": "assert_not_output_contains"}
+      "output_contains": "assert_output_contains", "not_output_contains": "assert_not_output_contains",
+      "type": "assert_type", "not_type": "assert_not_type"}
+NEG = {"type": "not_type", "not_type": "type"}
 SAY = {"o:abc": "print('abc')", "o:ABC!": "print('ABC!')", "o:abd": "print('abd')", "o:none": "pass", "o:two": "print('abd')\n    print('abc')"}
 OUT_TEXT = {"abc": "abc", "ABC": "ABC", "abc!": "abc!", "abd": "abd", "empty": "", "two": "abc\nabd"}
 OUT_FAMILY = {"output", "not_output", "output_contains", "not_output_contains"}
 EXTRA = {"t:int": int, "t:float": float, "t:str": str, "t:list": list, "t:bool": bool, "t:tuple": tuple,
-         "re:ab.": "ab.", "re:^b": "^b", "re:z": "z", "re:[0-9]": "[0-9]"}
+         "re:ab.": "ab.", "re:^b": "^b", "re:z": "z", "re:[0-9]": "[0-9]",
+         "t:dict": dict, "s:int": "int", "s:str": "str", "s:list": "list", "g:list_int": list[int], "sg:list_int": "list[int]",
+         "g:list_str": list[str], "lit:list_int": [int], "tt:int_int": (int, int), "sg:tuple_int_str": "tuple[int, str]",
+         "sg:dict_str_int": "dict[str, int]"}
 UNARY = {"is_none", "is_not_none", "true", "false"}
 
 
@@ -102,6 +108,17 @@ def replay_chunk(cases, extra):
                 if rec["l"] == "err" and wl == "raw" or (rec["a"] not in UNARY and rec["r"] == "err" and wr == "raw"):
                     continue
                 o = run_case(w, rec, wl, wr)
+                if rec["verdict"] == "any":
+                    # unspecified cell: the call must still produce a verdict; where the operands are evaluable
+                    # (holds = "X") the assertion and its negation must disagree
+                    bad = o["observed"] not in ("silent", "fails")
+                    if not bad and rec["holds"] == "X" and rec["a"] in NEG:
+                        o2 = run_case(w, dict(rec, a=NEG[rec["a"]]), wl, wr)
+                        bad = o2["observed"] == o["observed"]
+                        o = dict(o, negation=o2["observed"])
+                    if bad:
+                        out.append({"case": rec, "wrap": [wl, wr], "observed": o, "expected": "any (complement)", "holds": rec["holds"]})
+                    continue
                 if o["observed"] != rec["verdict"]:
                     out.append({"case": rec, "wrap": [wl, wr], "observed": o, "expected": rec["verdict"], "holds": rec["holds"]})
         else:
